@@ -85,6 +85,12 @@ Infer/Complete2.vos Infer/Complete2.vok Infer/Complete2.required_vos: Infer/Comp
 Infer/Complete3.vo Infer/Complete3.glob Infer/Complete3.v.beautified Infer/Complete3.required_vo: Infer/Complete3.v Ir/Syntax.vo Ir/Fold.vo Infer/Table.vo Infer/Unify.vo Infer/Closed.vo Infer/Sym.vo Infer/Sound.vo Infer/Complete.vo Infer/Complete2.vo
 Infer/Complete3.vio: Infer/Complete3.v Ir/Syntax.vio Ir/Fold.vio Infer/Table.vio Infer/Unify.vio Infer/Closed.vio Infer/Sym.vio Infer/Sound.vio Infer/Complete.vio Infer/Complete2.vio
 Infer/Complete3.vos Infer/Complete3.vok Infer/Complete3.required_vos: Infer/Complete3.v Ir/Syntax.vos Ir/Fold.vos Infer/Table.vos Infer/Unify.vos Infer/Closed.vos Infer/Sym.vos Infer/Sound.vos Infer/Complete.vos Infer/Complete2.vos
+Infer/Complete4.vo Infer/Complete4.glob Infer/Complete4.v.beautified Infer/Complete4.required_vo: Infer/Complete4.v Ir/Syntax.vo Ir/Fold.vo Infer/Table.vo Infer/Unify.vo Infer/Closed.vo Infer/Sym.vo Infer/Sound.vo Infer/Complete.vo Infer/Complete2.vo
+Infer/Complete4.vio: Infer/Complete4.v Ir/Syntax.vio Ir/Fold.vio Infer/Table.vio Infer/Unify.vio Infer/Closed.vio Infer/Sym.vio Infer/Sound.vio Infer/Complete.vio Infer/Complete2.vio
+Infer/Complete4.vos Infer/Complete4.vok Infer/Complete4.required_vos: Infer/Complete4.v Ir/Syntax.vos Ir/Fold.vos Infer/Table.vos Infer/Unify.vos Infer/Closed.vos Infer/Sym.vos Infer/Sound.vos Infer/Complete.vos Infer/Complete2.vos
+Infer/Complete5.vo Infer/Complete5.glob Infer/Complete5.v.beautified Infer/Complete5.required_vo: Infer/Complete5.v Ir/Syntax.vo Ir/Fold.vo Infer/Table.vo Infer/Unify.vo Infer/Closed.vo Infer/Sym.vo Infer/Sound.vo Infer/Complete.vo Infer/Complete2.vo Infer/Complete3.vo Infer/Complete4.vo
+Infer/Complete5.vio: Infer/Complete5.v Ir/Syntax.vio Ir/Fold.vio Infer/Table.vio Infer/Unify.vio Infer/Closed.vio Infer/Sym.vio Infer/Sound.vio Infer/Complete.vio Infer/Complete2.vio Infer/Complete3.vio Infer/Complete4.vio
+Infer/Complete5.vos Infer/Complete5.vok Infer/Complete5.required_vos: Infer/Complete5.v Ir/Syntax.vos Ir/Fold.vos Infer/Table.vos Infer/Unify.vos Infer/Closed.vos Infer/Sym.vos Infer/Sound.vos Infer/Complete.vos Infer/Complete2.vos Infer/Complete3.vos Infer/Complete4.vos
 Infer/Exact.vo Infer/Exact.glob Infer/Exact.v.beautified Infer/Exact.required_vo: Infer/Exact.v Ir/Syntax.vo Ir/Fold.vo Infer/Table.vo Infer/Unify.vo Infer/Closed.vo Infer/Sym.vo Infer/Sound.vo Infer/Complete.vo Infer/Complete2.vo Infer/Complete3.vo
 Infer/Exact.vio: Infer/Exact.v Ir/Syntax.vio Ir/Fold.vio Infer/Table.vio Infer/Unify.vio Infer/Closed.vio Infer/Sym.vio Infer/Sound.vio Infer/Complete.vio Infer/Complete2.vio Infer/Complete3.vio
 Infer/Exact.vos Infer/Exact.vok Infer/Exact.required_vos: Infer/Exact.v Ir/Syntax.vos Ir/Fold.vos Infer/Table.vos Infer/Unify.vos Infer/Closed.vos Infer/Sym.vos Infer/Sound.vos Infer/Complete.vos Infer/Complete2.vos Infer/Complete3.vos
@@ -199,9 +205,9 @@ Props/C12.vos Props/C12.vok Props/C12.required_vos: Props/C12.v Engine/RecTheore
 Props/C13.vo Props/C13.glob Props/C13.v.beautified Props/C13.required_vo: Props/C13.v Logic/Perm.vo
 Props/C13.vio: Props/C13.v Logic/Perm.vio
 Props/C13.vos Props/C13.vok Props/C13.required_vos: Props/C13.v Logic/Perm.vos
-Props/C14.vo Props/C14.glob Props/C14.v.beautified Props/C14.required_vo: Props/C14.v Ir/Syntax.vo Infer/Table.vo Infer/Unify.vo Infer/Sound.vo Infer/Complete.vo Infer/Complete2.vo Infer/Complete3.vo Infer/Exact.vo
-Props/C14.vio: Props/C14.v Ir/Syntax.vio Infer/Table.vio Infer/Unify.vio Infer/Sound.vio Infer/Complete.vio Infer/Complete2.vio Infer/Complete3.vio Infer/Exact.vio
-Props/C14.vos Props/C14.vok Props/C14.required_vos: Props/C14.v Ir/Syntax.vos Infer/Table.vos Infer/Unify.vos Infer/Sound.vos Infer/Complete.vos Infer/Complete2.vos Infer/Complete3.vos Infer/Exact.vos
+Props/C14.vo Props/C14.glob Props/C14.v.beautified Props/C14.required_vo: Props/C14.v Ir/Syntax.vo Infer/Table.vo Infer/Unify.vo Infer/Sound.vo Infer/Complete.vo Infer/Complete2.vo Infer/Complete3.vo Infer/Complete4.vo Infer/Complete5.vo Infer/Exact.vo
+Props/C14.vio: Props/C14.v Ir/Syntax.vio Infer/Table.vio Infer/Unify.vio Infer/Sound.vio Infer/Complete.vio Infer/Complete2.vio Infer/Complete3.vio Infer/Complete4.vio Infer/Complete5.vio Infer/Exact.vio
+Props/C14.vos Props/C14.vok Props/C14.required_vos: Props/C14.v Ir/Syntax.vos Infer/Table.vos Infer/Unify.vos Infer/Sound.vos Infer/Complete.vos Infer/Complete2.vos Infer/Complete3.vos Infer/Complete4.vos Infer/Complete5.vos Infer/Exact.vos
 Props/C15.vo Props/C15.glob Props/C15.v.beautified Props/C15.required_vo: Props/C15.v Ir/Syntax.vo Infer/Table.vo Infer/Unify.vo Infer/Sym.vo
 Props/C15.vio: Props/C15.v Ir/Syntax.vio Infer/Table.vio Infer/Unify.vio Infer/Sym.vio
 Props/C15.vos Props/C15.vok Props/C15.required_vos: Props/C15.v Ir/Syntax.vos Infer/Table.vos Infer/Unify.vos Infer/Sym.vos
